@@ -7,6 +7,7 @@
 #define NGRPS		64	/* maximum number of groups */
 #define NREPS		128	/* maximum repetitions */
 #define NDEPT		256	/* re_rec() recursion depth limit */
+#define NINST		(1 << 20)	/* maximum number of instructions */
 
 #define MAX(a, b)	((a) < (b) ? (b) : (a))
 #define LEN(a)		(sizeof(a) / sizeof((a)[0]))
@@ -447,7 +448,7 @@ static int rnode_count(struct rnode *rnode)
 	if (rnode->mincnt == 0 && rnode->maxcnt == 0)
 		return 0;
 	if (rnode->mincnt == 1 && rnode->maxcnt == 1)
-		return n;
+		return n < NINST ? n : NINST;
 	if (rnode->maxcnt < 0) {
 		n = (rnode->mincnt + 1) * n + 1;
 	} else {
@@ -456,7 +457,7 @@ static int rnode_count(struct rnode *rnode)
 	}
 	if (!rnode->mincnt)
 		n++;
-	return n;
+	return n < NINST ? n : NINST;	/* saturate: the products stay below INT_MAX */
 }
 
 static int rnode_grpnum(struct rnode *rnode, int num)
@@ -555,6 +556,10 @@ int regcomp(regex_t *preg, char *pat, int flg)
 	int mark;
 	if (!rnode)
 		return 1;
+	if (n >= NINST) {		/* too many instructions */
+		rnode_free(rnode);
+		return 1;
+	}
 	rnode_grpnum(rnode, 1);
 	re = malloc(sizeof(*re));
 	memset(re, 0, sizeof(*re));
